@@ -794,6 +794,11 @@ def check_C05(rep, tier):
                        "signed part, re-parses and verifies with the signers' keys: must fail, and the canonical bytes must differ.  "
                        "Non-trivial = every scenario (each contains an edit); skipped when the edit yields an equal parsed value.")
     _life(rep, tier, "C05", families_for(tier), ["AConstruct", "AWrite", "ARead", "AEdit", "AEditString", "AVerify"])
+    res = last_json(run_itv(["record", "C05dates", "5000" if tier == "quick" else "300000"], timeout=3000))
+    rep.cov["expiry_instants_with_pairwise_distinct_signed_bytes"] = res["instants"]
+    rep.cov["evaluations"] += res["instants"]
+    for b in res["bad"]:
+        rep.mismatch({"kind": "two_expiry_instants_same_signed_bytes"}, {"case": b})
     rep.assumptions += ["pairs of documents are generated by single edits and by bounded enumeration of string pairs, not all pairs",
                         "expiry differences below one second are outside C05 ('to the second')"]
 
